@@ -1,6 +1,6 @@
 ------------------------------ MODULE C19Trace -------------------------------
 (* Code -> specification for C19: every recorded call lies in the outcome alphabet of Totality. *)
 EXTENDS Totality, EvBase
-EventOK == i > 0 => OutcomeOK(Trace[i]) /\ StreamOK(Trace[i])
-Diag == i > 0 => PrintT(<<"DIAG", i, [outcome |-> OutcomeOK(Trace[i]), stream |-> StreamOK(Trace[i])]>>)
+EventOK == i > 0 => OutcomeOK(Trace[i]) /\ StreamOK(Trace[i]) /\ SpellingOK(Trace[i])
+Diag == i > 0 => PrintT(<<"DIAG", i, [outcome |-> OutcomeOK(Trace[i]), stream |-> StreamOK(Trace[i]), spelling |-> SpellingOK(Trace[i])]>>)
 =============================================================================
